@@ -36,6 +36,17 @@ pub enum VersionClass {
     Current,
 }
 
+/// x.y.z followed by a pre-release (-...) and/or build (+...) tag: the release triple
+fn parse_tagged_version(s: &str) -> Option<((u64, u64, u64), bool)> {
+    let cut = s.find(|c| c == '-' || c == '+')?;
+    let triple = parse_plain_version(&s[..cut])?;
+    let tail = &s[cut..];
+    if tail.len() < 2 || !tail[1..].bytes().all(|b| b.is_ascii_alphanumeric() || b == b'.' || b == b'-' || b == b'+') {
+        return None;
+    }
+    Some((triple, tail.starts_with('-')))
+}
+
 pub fn classify(w: &World) -> VersionClass {
     let raw = match w.store.map.get(KEY_VERSION_INFO) {
         Some(r) => r,
@@ -46,7 +57,17 @@ pub fn classify(w: &World) -> VersionClass {
         Err(_) => return VersionClass::Unreadable,
     };
     match parse_plain_version(&v.version) {
-        None => VersionClass::Unreadable,
+        None => {
+            // a pre-release of the minimum version (or anything tagged below it) is older than
+            // the supported minimum by version precedence; tagged versions above it get no
+            // verdict (see version_in_domain)
+            if let Some((t, pre)) = parse_tagged_version(&v.version) {
+                if t < (0, 16, 2) || (pre && t == (0, 16, 2)) {
+                    return VersionClass::TooOld;
+                }
+            }
+            VersionClass::Unreadable
+        }
         Some(t) => {
             if t < (0, 16, 2) {
                 VersionClass::TooOld
@@ -72,7 +93,11 @@ pub fn version_in_domain(w: &World) -> bool {
             if parse_plain_version(&v.version).is_some() {
                 return true;
             }
-            // pre-release / build metadata / partial versions: excluded (DESIGN 3.1)
+            // tagged versions: only those that are older than the minimum by precedence have a
+            // verdict (refused); other tagged / partial versions are excluded (DESIGN 3.1)
+            if let Some((t, pre)) = parse_tagged_version(&v.version) {
+                return t < (0, 16, 2) || (pre && t == (0, 16, 2));
+            }
             !(v.version.contains('-') || v.version.contains('+'))
                 && !v.version.split('.').all(|p| !p.is_empty() && p.bytes().all(|b| b.is_ascii_digit()))
         }
